@@ -151,6 +151,14 @@ fn replacement() -> impl Strategy<Value = String> {
         (1usize..20).prop_map(|x| format!("0{x}")),
         (1usize..20).prop_map(|x| format!("+{x}")),
         Just("x".to_string()),
+        // non-ASCII: no-break space and em space (Unicode white space), full-width and Arabic-Indic
+        // digits, a combining accent, a 4-byte character
+        Just("\u{a0}".to_string()),
+        Just("1\u{2003}2".to_string()),
+        Just("\u{ff13}".to_string()),
+        Just("\u{663}".to_string()),
+        Just("2\u{301}".to_string()),
+        Just("\u{1f600}".to_string()),
         Just("1.5".to_string()),
         Just("123456789012345678901234567890".to_string()),
         Just("18446744073709551615".to_string()),
@@ -180,6 +188,8 @@ pub fn text_strategy(_t: Tier) -> BoxedStrategy<TextCase> {
             .prop_map(|(base, padded, muts)| TextCase::Mutated { base, padded, muts }),
         2 => ((0u8..=20, 0u8..=20), "[0-9 \\n\\t+\\-.a-c]{0,120}").prop_map(|(header, body)| TextCase::Soup { header, body }),
         1 => "[0-9 \\n]{0,60}".prop_map(|text| TextCase::Raw { text }),
+        // arbitrary Unicode, alone or behind a small numeric header
+        1 => ("\\PC{0,60}", proptest::option::weighted(0.7, (0u8..=12, 0u8..=12))).prop_map(|(body, hd)| TextCase::Raw { text: match hd { Some((a, b)) => format!("{a} {b}\n{body}"), None => body } }),
     ]
     .boxed()
 }
@@ -456,7 +466,7 @@ pub fn property() -> Property {
             }),
             Box::new(Sub {
                 name: "totality",
-                rule: "texts: valid alists (own writer) under 0..=3 token/line/byte-level mutations (delete/duplicate/replace token by 0, small numbers, other spellings (00, +0, 000, -0, 07, +7), 1000001, -1, +3, letters, 1.5, 30-digit and 2^64 numbers; drop/duplicate/swap lines; truncate at any byte; CRLF; tabs; trailing blanks), token soups behind a numeric header, raw digit/space/newline strings; declared dimensions kept <= 80 by construction; oracle: from_alist never panics, Ok(h) has the declared dimensions and in-range entries and re-writes to a text that parses to the same matrix, and any text the own strict reader accepts must be accepted with exactly that matrix; non-trivial = mutated text that gets past the header",
+                rule: "texts: valid alists (own writer) under 0..=3 token/line/byte-level mutations (delete/duplicate/replace token by 0, small numbers, other spellings (00, +0, 000, -0, 07, +7), 1000001, -1, +3, letters, 1.5, 30-digit and 2^64 numbers; drop/duplicate/swap lines; truncate at any byte; CRLF; tabs; trailing blanks), token soups behind a numeric header, raw digit/space/newline strings, arbitrary Unicode strings (alone or behind a small numeric header), non-ASCII replacement tokens (no-break / em space, full-width and Arabic-Indic digits, combining accent, 4-byte character); declared dimensions kept <= 80 by construction; oracle: from_alist never panics, Ok(h) has the declared dimensions and in-range entries and re-writes to a text that parses to the same matrix, and any text the own strict reader accepts must be accepted with exactly that matrix; non-trivial = mutated text that gets past the header",
                 cases: |t| t.pick(1_000_000, 30_000_000),
                 strategy: text_strategy,
                 check: check_text,
